@@ -12,18 +12,21 @@ from vlib.evm import DEPLOYER, SENDER2, Chain
 LEVEL = "proof"
 META = {
     "category": "proof",
-    "text": "Coq theorems on a core calculus (EffVy) of Vyper's mutability/constancy/loop rules: a program accepted by `check` "
-            "runs its @view/@pure functions (and everything they call) without state writes, modifying calls or logs and leaves "
-            "storage unchanged; @pure functions read no state/environment; the call graph is acyclic; and every single-rule "
-            "violation at any statement/expression nesting position makes `check` false. `check` is tied to the real analyser by "
-            "generated programs (valid skeletons x one violation of each rule at a random position, directly or inside "
-            "internally-called functions): the real front end's accept/reject must equal `check` (evaluated in Coq), and accepted "
-            "programs are executed: view/pure under STATICCALL vs CALL, pure under perturbed storage/balance/block context.",
+    "text": "Coq theorems on a core calculus (EffVy) of Vyper's mutability/constancy/loop/module rules: a program accepted by "
+            "`check` runs its @view/@pure functions (and everything they call) without state writes, modifying calls or logs and "
+            "leaves storage unchanged; @pure functions read no state/environment and their outcome is the same in every world; "
+            "the call graph is acyclic, every run terminates within a statically computed fuel and performs at most a statically "
+            "computed number of loop iterations; range(x, bound=K) runs x <= K times or reverts; an iterated state array is never "
+            "written during the loop (directly or by called functions); every single-rule violation at any statement/expression "
+            "nesting position makes `check` false. `check` is tied to the real analyser by generated programs (valid skeletons x "
+            "one violation of each of ~60 rule variants at a random position, incl. an imported module with uses/initializes): "
+            "the real compiler's accept/reject must equal `check` (evaluated in Coq), rule-breaking programs must be rejected with "
+            "a user-facing diagnostic (a compiler panic is a failing input), and accepted programs are executed: view/pure under "
+            "STATICCALL vs CALL, pure under perturbed storage/balance/block/sender; range bounds are probed at run time.",
     "level_note": "Proof is on the calculus, not on local.py itself (hand model + correspondence). The calculus has scalar "
-                  "variables, one-argument functions, a single module; module ownership (uses/initializes), struct/array "
-                  "paths, raw_call flag analysis, and iterator mutation through internal calls are outside it. Termination "
-                  "within a computed fuel is not proved (acyclicity of the call graph and the loop-bound property are).",
-    "technique": "Coq proof over a hand-written calculus + generated-program differential against the real front end + EVM execution",
+                  "variables plus two array variables, one-argument functions, one imported module; struct/array access paths, "
+                  "nested modules, abstract/override methods, default arguments and reentrancy are outside it.",
+    "technique": "Coq proof over a hand-written calculus + generated-program differential against the real compiler + EVM execution",
 }
 
 # rules that the real compiler enforces only inside the code generators (build_IR / venom lowering of the builtin)
@@ -378,7 +381,9 @@ def run(ctx):
     nfail += fb
     ctx.corr["rule"] = "evaluations = programs classified by front end and by check + EVM calls on accepted programs; distinct = distinct program terms"
     ctx.samples.append({"rule": cases[1][0], "where": cases[1][1], "source_tail": G.v_prog(cases[1][2], tgt_lit)[0][-600:]})
-    if not nfail:
+    # known findings must not mask other reports: only NEW failing inputs replace the correspondence verdicts
+    new_fail = sum(1 for v in ctx.violations if v["kind"] == "failing-input")
+    if not new_fail:
         if not b["ok"]:
             ctx.violation("theorem-broken", f"{b.get('failed_lemma')} in {b['file']}",
                           {"theorem": b.get("failed_lemma"), "file": b["file"], "coq_output": b["out"][-1500:]})
